@@ -317,6 +317,7 @@ struct AspifTextOutput::Data {
 		strings.push_back(std::string(Potassco::begin(str), Potassco::end(str)));
 		return id;
 	}
+	bool hasName(Atom_t id) const { return id < atoms.size() && atoms[id] < strings.size(); }
 	RawVec    directives;
 	StringVec strings;
 	AtomMap   atoms; // maps into strings
@@ -383,7 +384,7 @@ void AspifTextOutput::minimize(Weight_t prio, const WeightLitSpan& lits) {
 }
 void AspifTextOutput::output(const StringSpan& str, const LitSpan& cond) {
 	bool isAtom = size(str) > 0 && (std::islower(static_cast<unsigned char>(*begin(str))) || *begin(str) == '_');
-	if (size(cond) == 1 && lit(*begin(cond)) > 0 && isAtom) {
+	if (size(cond) == 1 && lit(*begin(cond)) > 0 && isAtom && !data_->hasName(Potassco::atom(*begin(cond)))) {
 		addAtom(Potassco::atom(*begin(cond)), str);
 	}
 	else {
